@@ -8,11 +8,17 @@ import (
 	"k8s.io/client-go/tools/cache"
 )
 
+// staticSharedInformer stands in for the underlying informer of a static cache: always synced, nothing else is used.
+type staticSharedInformer struct{ cache.SharedIndexInformer }
+
+func (staticSharedInformer) HasSynced() bool { return true }
+
 // NewStaticResourceInformer wraps a plain indexer: listers read it, nothing runs.
 func NewStaticResourceInformer(gvr schema.GroupVersionResource, indexer cache.Indexer) *ResourceInformer {
 	sri := &sharedResourceInformer{
-		lister: dynamiclister.New(indexer, gvr),
-		close:  func() {},
+		informer: staticSharedInformer{},
+		lister:   dynamiclister.New(indexer, gvr),
+		close:    func() {},
 	}
 	sri.eventHandlers = newSharedEventHandler(sri.lister, 0)
 	return newResourceInformer(sri)
